@@ -114,6 +114,18 @@ InterpreterEnv::InterpreterEnv(std::vector<valtype>& stack_in, const CScript& sc
 
 bool CastToBool(const valtype& vch);
 
+static void PopHistory(InterpreterEnv& env)
+{
+    env.stack_history.pop_back();
+    env.altstack_history.pop_back();
+    env.pc_history.pop_back();
+    env.nOpCount_history.pop_back();
+    env.vfExec_history.pop_back();
+    env.pbegincodehash_history.pop_back();
+    env.execdata_history.pop_back();
+    env.opcode_pos_history.pop_back();
+}
+
 bool StepScript(InterpreterEnv& env)
 {
     // tapscript commitments go first
@@ -144,13 +156,22 @@ bool StepScript(InterpreterEnv& env)
         env.altstack_history.push_back(env.altstack);
         env.pc_history.push_back(env.pc);
         env.nOpCount_history.push_back(env.nOpCount);
+        env.vfExec_history.push_back(env.vfExec);
+        env.pbegincodehash_history.push_back(env.pbegincodehash);
+        env.execdata_history.push_back(env.execdata);
+        env.opcode_pos_history.push_back(env.opcode_pos);
 
-        if (!StepScript(env, pc)) {
+        bool ok;
+        try {
+            ok = StepScript(env, pc);
+        } catch (...) {
+            // a step that throws did not happen either
+            PopHistory(env);
+            throw;
+        }
+        if (!ok) {
             // undo above pushes
-            env.stack_history.pop_back();
-            env.altstack_history.pop_back();
-            env.pc_history.pop_back();
-            env.nOpCount_history.pop_back();
+            PopHistory(env);
             return false;
         }
 
@@ -245,11 +266,12 @@ bool RewindScript(InterpreterEnv& env)
     env.pc = env.pc_history.back();
     env.curr_op_seq--;
     env.nOpCount = env.nOpCount_history.back();
+    env.vfExec = env.vfExec_history.back();
+    env.pbegincodehash = env.pbegincodehash_history.back();
+    env.execdata = env.execdata_history.back();
+    env.opcode_pos = env.opcode_pos_history.back();
     // Pop
-    env.stack_history.pop_back();
-    env.altstack_history.pop_back();
-    env.pc_history.pop_back();
-    env.nOpCount_history.pop_back();
+    PopHistory(env);
     return true;
 }
 
